@@ -214,7 +214,20 @@ func runGateSeqOps(rc *RunCtx, prop string, fixed []gateOp, fixedBroker bool) {
 	if fixed != nil {
 		hasBroker = fixedBroker
 	}
-	gf := &gated.Filter{Expiration: E, NowFunc: func() time.Time { return h.now }}
+	// the time source is an exported field: the application may install another one at any time; a source
+	// that was replaced stands still from then on (whoever still asks it sees a frozen clock)
+	clockGen := 0
+	frozen := map[int]time.Time{}
+	mkClock := func() func() time.Time {
+		g := clockGen
+		return func() time.Time {
+			if g != clockGen {
+				return frozen[g]
+			}
+			return h.now
+		}
+	}
+	gf := &gated.Filter{Expiration: E, NowFunc: mkClock()}
 	if tp.Choose(5, "default-expiration") == 0 {
 		gf.Expiration = 0
 		E = gated.DefaultEventTimeout
@@ -310,6 +323,9 @@ func runGateSeqOps(rc *RunCtx, prop string, fixed []gateOp, fixedBroker bool) {
 				// the exported Expiration is changed on the live filter: groups opened
 				// from now on expire earlier / later than the ones already open
 				op = gateOp{Kind: "set-expiration", D: []int64{int64(E) / 10, int64(E) * 10, int64(E) / 3, -int64(time.Second)}[tp.Choose(4, "newexp")]}
+			}
+			if !probe && fixed == nil && tp.Choose(14, "replace-clock") == 0 {
+				op = gateOp{Kind: "replace-clock"}
 			}
 			if !probe && fixed == nil && tp.Choose(12, "reopen") == 0 {
 				// Reopen (the Broker calls it on every node of every pipeline) must leave the gate as it is
@@ -434,6 +450,12 @@ func runGateSeqOps(rc *RunCtx, prop string, fixed []gateOp, fixedBroker bool) {
 					fail("passthrough", "", "a non-Gateable event must pass through unchanged, got (%p, %v) for %p", out, err, e)
 				}
 				noExtra()
+			case "replace-clock":
+				histStr = append(histStr, "replace-clock")
+				frozen[clockGen] = h.now
+				clockGen++
+				gf.NowFunc = mkClock()
+				simrt.Probe("gate.clock-replaced")
 			case "reopen":
 				histStr = append(histStr, "reopen")
 				if err := gf.Reopen(); err != nil {
